@@ -1,5 +1,6 @@
 """./check <property> [--tier quick|thorough] [--replay file]"""
 import importlib
+import warnings
 import json
 import os
 import sys
@@ -7,6 +8,13 @@ import traceback
 
 
 def main(argv):
+  warnings.filterwarnings('ignore')
+  try:
+    import statsmodels.tools.sm_exceptions  # noqa: F401  (imports that reset warning filters come first)
+    import statsmodels.api  # noqa: F401
+    warnings.filterwarnings('ignore')
+  except Exception:
+    pass
   if not argv:
     print(__doc__)
     return 2
